@@ -10,11 +10,11 @@
 //                        2: on one only (inconclusive, counted in the histogram, never a verdict); 0: fine
 // input    (11 fmt cipher keyseed #frame mode lo hi)                   a valid frame damaged:
 // observed ((dec) (unzip) (panicked errkind) (res ...))                 mode 0 flips bit i, mode 1 cuts
-//            res = (panicked errkind consumed wanted maxcap)            after i bytes, lo <= i < hi
+//            res = (panicked errkind consumed wanted maxcap allocflag)  after i bytes, lo <= i < hi
 // input    (12 fmt #template #tail lo hi)                              length field := L, lo <= L < hi
 // observed ((dec) (unzip) (res ...))
 // input    (13 fmt #stream)                                            a qnet.TcpConn reading from a loopback
-// observed (nerr errkind (pkt ...) closed timedout late)                connection that is sent the stream, then EOF
+// observed (nerr errkind (pkt ...) closed timedout late dcount dkind)   connection that is sent the stream, then EOF
 // panicked = 2 in a res: the decoder was not run (memory guard, see guard()).
 package main
 
@@ -122,8 +122,9 @@ func allocBound(fmtc int) uint64 {
 }
 
 // measureAlloc: bytes allocated (runtime.MemStats.TotalAlloc) by one ReadHeadBody / ReadLenData on a
-// private copy of the reader, garbage collector switched off, nothing else running
-func measureAlloc(fmtc int, r ChunkReader) uint64 {
+// private copy of the reader, garbage collector switched off, nothing else running; also the
+// largest buffer the decoder visibly used (handed to Read)
+func measureAlloc(fmtc int, r ChunkReader) (uint64, uint64) {
 	old := debug.SetGCPercent(-1)
 	defer debug.SetGCPercent(old)
 	var m0, m1 runtime.MemStats
@@ -131,6 +132,7 @@ func measureAlloc(fmtc int, r ChunkReader) uint64 {
 	if fmtc == 2 {
 		enc = NewEncoder(2, 0)
 	}
+	r.Begin()
 	runtime.ReadMemStats(&m0)
 	if fmtc == 3 {
 		Catch(func() { codec.ReadLenData(&r) })
@@ -138,26 +140,47 @@ func measureAlloc(fmtc int, r ChunkReader) uint64 {
 		Catch(func() { enc.ReadHeadBody(&r) })
 	}
 	runtime.ReadMemStats(&m1)
-	return m1.TotalAlloc - m0.TotalAlloc
+	return m1.TotalAlloc - m0.TotalAlloc, uint64(r.MaxCap)
 }
 
 var allocInconclusive, allocMeasured int
 
-// allocFlag: 1 only if two consecutive measurements of the same input are over the bound
+// allocFlag (a verdict only when two consecutive measurements of the same input agree):
+//   1  more than the format's maximum (plus slack) was allocated
+//   3  much more was allocated than the buffers the decoder visibly used (hidden allocation)
+//   2  one measurement was over, the next was not: inconclusive, counted, never a verdict
 func allocFlag(fmtc int, r ChunkReader) int {
 	allocMeasured++
-	if measureAlloc(fmtc, r) <= allocBound(fmtc) {
+	over := func() (bool, bool) {
+		d, vis := measureAlloc(fmtc, r)
+		return d > allocBound(fmtc), d > vis+vis/4+24<<10
+	}
+	a1, h1 := over()
+	if !a1 && !h1 {
 		return 0
 	}
-	if measureAlloc(fmtc, r) <= allocBound(fmtc) {
-		allocInconclusive++
-		return 2
+	a2, h2 := over()
+	switch {
+	case a1 && a2:
+		return 1
+	case h1 && h2:
+		return 3
 	}
-	return 1
+	allocInconclusive++
+	return 2
 }
 
-func (d dres) short() Sx {
-	return List(Int(int64(d.pn)), Int(int64(d.kind)), Int(int64(d.consumed)), Int(int64(d.wanted)), Int(int64(d.maxcap)))
+func (d dres) short(aflag int) Sx {
+	return List(Int(int64(d.pn)), Int(int64(d.kind)), Int(int64(d.consumed)), Int(int64(d.wanted)), Int(int64(d.maxcap)), Int(int64(aflag)))
+}
+
+// measured reports the allocation flag of a decode of data from its start (0 when the input is
+// of the class the memory guard protects against)
+func measured(fmtc int, data []byte, want bool) int {
+	if !want || dangerous(fmtc, data) {
+		return 0
+	}
+	return allocFlag(fmtc, *NewChunkReader(data, nil))
 }
 
 // zlib oracle entries for one decode that got as far as decompression (result ok or
@@ -185,6 +208,23 @@ func feedUnzip(fmtc int, d dres, data []byte, rec *Recorder, before int, unzipT 
 		return
 	}
 	AddUnzip(unzipT, data[hs+4*nref:l])
+}
+
+func HeaderSizeOf(fmtc int) int {
+	if fmtc == 3 {
+		return 2
+	}
+	return HeaderSize(fmtc)
+}
+
+func MaxOf(fmtc int) int {
+	switch fmtc {
+	case 1:
+		return codec.V1MaxPayloadBytes
+	case 2:
+		return codec.V2MaxPayloadBytes
+	}
+	return 65535
 }
 
 func sizesOf(s Sx) []int {
@@ -274,7 +314,7 @@ func runDamaged(in Sx) Sx {
 		} else {
 			data = frame
 		}
-		rs = append(rs, one(data).short())
+		rs = append(rs, one(data).short(measured(fmtc, data, i < 32 || i%64 == 0)))
 	}
 	dt, ut := tables(rec, unzipT)
 	return List(dt, ut, List(Int(int64(base.pn)), Int(int64(base.kind))), ListOf(rs))
@@ -298,7 +338,8 @@ func runSweep(in Sx) Sx {
 		data := append(setLength(fmtc, l, template), tail...)
 		d := decode(fmtc, NewChunkReader(data, nil), nil, false)
 		feedUnzip(fmtc, d, data, nil, 0, unzipT)
-		rs = append(rs, d.short())
+		near := l <= HeaderSizeOf(fmtc)+1 || l%512 == 0 || (l >= MaxOf(fmtc)-1 && l <= MaxOf(fmtc)+2) || l >= 1<<16-2
+		rs = append(rs, d.short(measured(fmtc, data, near)))
 	}
 	return List(ListOf(nil), unzipT.OSx(), ListOf(rs))
 }
@@ -311,9 +352,28 @@ var connTimeouts int
 
 func runConn(in Sx) Sx {
 	ver, data := in.At(1).AsInt(), in.At(2).AsBytes()
+	// what the decoder itself does with these bytes, without a connection
+	dcount, dkind := 0, 0
+	{
+		r := NewChunkReader(data, nil)
+		enc := NewEncoder(ver, 0)
+		for {
+			var derr error
+			if p, _ := Catch(func() { derr = enc.ReadPacket(r, nil, packet.Make()) }); p {
+				dkind = -1
+				break
+			}
+			if derr != nil {
+				dkind = ErrKind(derr)
+				break
+			}
+			dcount++
+		}
+	}
+	direct := []Sx{Int(int64(dcount)), Int(int64(dkind))}
 	timedOut := func() Sx {
 		connTimeouts++
-		return List(Int(0), Int(0), ListOf(nil), Int(0), Int(1), Int(0))
+		return ListOf(append([]Sx{Int(0), Int(0), ListOf(nil), Int(0), Int(1), Int(0)}, direct...))
 	}
 	ln, err := net.Listen("tcp", "127.0.0.1:0")
 	if err != nil {
@@ -332,6 +392,16 @@ func runConn(in Sx) Sx {
 	defer srv.Close()
 	errCh := make(chan error, 16)
 	incoming := make(chan fatchoy.IPacket, 256)
+	readerExit := make(chan struct{}, 4)
+	qnet.VerifSetHook(func(t *qnet.TcpConn, name string) {
+		if name == "reader.exit" {
+			select {
+			case readerExit <- struct{}{}:
+			default:
+			}
+		}
+	})
+	defer qnet.VerifSetHook(nil)
 	tc := qnet.NewTcpConn(fatchoy.NodeID(1), srv, NewEncoder(ver, 0), errCh, incoming, 8, nil)
 	tc.Go(fatchoy.EndpointReader)
 	if len(data) > 0 {
@@ -340,9 +410,19 @@ func runConn(in Sx) Sx {
 		}
 	}
 	cli.(*net.TCPConn).CloseWrite()
+	// the reader either notifies an error (ForceClose does so before the reader returns) or leaves
+	// silently: the reader.exit schedule point with an empty error channel is "no error reported"
 	var first error
+	nerr := 0
 	select {
 	case first = <-errCh:
+		nerr = 1
+	case <-readerExit:
+		select {
+		case first = <-errCh:
+			nerr = 1
+		default:
+		}
 	case <-time.After(30 * time.Second):
 		return timedOut()
 	}
@@ -350,6 +430,21 @@ func runConn(in Sx) Sx {
 	var qe *qnet.Error
 	if errors.As(first, &qe) {
 		kind = ErrKind(qe.Err)
+	}
+	if nerr == 0 {
+		// silent exit: nothing closed the connection; report what was delivered
+		var pk []Sx
+		for more := true; more; {
+			select {
+			case p := <-incoming:
+				if pp, ok := p.(*packet.Packet); ok {
+					pk = append(pk, PacketSx(pp, BodyToSx(pp.Body_)))
+				}
+			default:
+				more = false
+			}
+		}
+		return ListOf(append([]Sx{Int(0), Int(0), ListOf(pk), Int(0), Int(0), Int(0)}, direct...))
 	}
 	var pkts []Sx
 	drain := func() int {
@@ -380,7 +475,6 @@ func runConn(in Sx) Sx {
 	// nothing may follow the first error
 	time.Sleep(20 * time.Millisecond)
 	late := drain()
-	nerr := 1
 	for more := true; more; {
 		select {
 		case <-errCh:
@@ -390,7 +484,7 @@ func runConn(in Sx) Sx {
 			more = false
 		}
 	}
-	return List(Int(int64(nerr)), Int(int64(kind)), ListOf(pkts[:delivered]), Int(int64(closed)), Int(0), Int(int64(late)))
+	return ListOf(append([]Sx{Int(int64(nerr)), Int(int64(kind)), ListOf(pkts[:delivered]), Int(int64(closed)), Int(0), Int(int64(late))}, direct...))
 }
 
 func run(in Sx) Sx {
@@ -557,8 +651,27 @@ func gen(a Args, out *Out) {
 			stride = 1
 		}
 		enc := NewEncoder(2, 0)
+		started, nth := time.Now(), 0
+		budget := 90 * time.Second
+		if thorough {
+			budget = 900 * time.Second
+		}
 		for l := codec.V2MaxPayloadBytes + 1 + rng.Intn(stride); l < 1<<24; l += stride {
 			data := append(setLength(2, l, template), tail...)
+			// a refused length must not cost an allocation: measured on the first few and then
+			// now and then; a decoder that allocates first would also make this loop crawl
+			if nth < 4 || nth%8192 == 0 {
+				if f := measured(2, data, true); f == 1 || f == 3 {
+					out.Violation("C02/v2-long-length-alloc", "V2 length field above the maximum: payload buffer allocated before the refusal",
+						List(List(Int(12), Int(2), Bytes(template), Bytes(tail), Int(int64(l)), Int(int64(l+1))), ListOf(nil)))
+					break
+				}
+			}
+			nth++
+			if nth%1024 == 0 && time.Since(started) > budget {
+				out.Note("sweep of the V2 lengths above the maximum stopped after %v at %d of %d values", budget, nth, (1<<24-codec.V2MaxPayloadBytes)/stride)
+				break
+			}
 			r := NewChunkReader(data, nil)
 			r.Begin()
 			var err error
